@@ -100,6 +100,7 @@ var verifStmts = []string{
 	"SELECT k, max(v) AS m FROM s GROUP BY k, SlidingWindow('10s', '5s') WITH (TIMESTAMP='ts', TIMEUNIT='ms')",
 	"SELECT k, sum(v) AS t FROM s GROUP BY k, SessionWindow('5s')",
 	"SELECT CASE WHEN a > 1 THEN 'hi' ELSE 'lo' END AS lvl FROM s",
+	"SELECT CASE WHEN (a > 1) AND (b > 2) THEN 1 ELSE (a + 1) END AS lvl FROM s WHERE a > 0 AND (b > 1 OR c > 1)",
 }
 
 func verifSplit(s string) []string {
@@ -357,7 +358,7 @@ func VerifC11ParseTail() {
 
 // VerifC11Clauses: the configuration reflects exactly the written clauses, for every combination of
 // optional parts: ORDER BY with 1..3 keys each written bare, ASC or DESC (upper, lower or mixed case), LIMIT
-// present or not, DISTINCT present or not, select items with and without alias in the written order.
+// present or not, DISTINCT present or not, HAVING present or not (its text must end where ORDER BY begins), select items with and without alias in the written order.
 // The oracle is the generator's own structure, not another parse.
 func VerifC11Clauses() {
 	nkeys := zzverif.Param("nkeys", 2)
@@ -385,7 +386,12 @@ func VerifC11Clauses() {
 	} else {
 		sql += "c, " + dev + ", m"
 	}
-	sql += " FROM stream ORDER BY "
+	sql += " FROM stream"
+	withHaving := !symid && zzverif.Choose("having", 2) == 1
+	if withHaving {
+		sql += " HAVING c > 1"
+	}
+	sql += " ORDER BY "
 	dirs := make([]int, nkeys)
 	for i := 0; i < nkeys; i++ {
 		if i > 0 {
@@ -425,6 +431,11 @@ func VerifC11Clauses() {
 	}
 	zzverif.Assert(cfg.Limit == wantLimit, "limit-is-the-written-one")
 	zzverif.Assert(cfg.Distinct == distinct, "distinct-is-the-written-one")
+	wantHaving := ""
+	if withHaving {
+		wantHaving = "c > 1"
+	}
+	zzverif.Assert(cfg.Having == wantHaving, "having-text-is-the-written-predicate-only")
 	zzverif.Assert(len(cfg.SimpleFields) == 3, "select-items-in-order")
 	if len(cfg.SimpleFields) == 3 {
 		wantF := []string{"c", dev, "m"}
